@@ -254,8 +254,15 @@ int cstl_hash_foreach_const(const struct cstl_hash * const h,
 static void __cstl_hash_set_capacity(
     struct cstl_hash * const h, const size_t sz)
 {
-    struct cstl_hash_bucket * const at =
-        realloc(h->bucket.at, sizeof(*at) * sz);
+    struct cstl_hash_bucket * at = NULL;
+
+    /*
+     * a byte count that cannot be represented cannot be
+     * allocated; treat it like any other allocation failure
+     */
+    if (sz <= SIZE_MAX / sizeof(*at)) {
+        at = realloc(h->bucket.at, sizeof(*at) * sz);
+    }
     if (at != NULL) {
         h->bucket.at = at;
         h->bucket.capacity = sz;
